@@ -32,7 +32,8 @@ N_SHARDS = 16
 
 def plan(tier, seed):
     sets = 6000 if tier == "quick" else 600000
-    return [{"part": p, "parts": N_SHARDS, "sets": sets, "label": "messages-%d" % p} for p in range(N_SHARDS)]
+    histories = 60 if tier == "quick" else 6000
+    return [{"part": p, "parts": N_SHARDS, "sets": sets, "histories": histories, "label": "messages-%d" % p} for p in range(N_SHARDS)]
 
 
 def configurations(tier):
@@ -298,29 +299,60 @@ def mk_inv(i):
     return InvItem(i["type"], i["hash"], dont_check=True)
 
 
-def to_lib(N, v):
-    """reference value -> the object pycoin's pack takes, directed by the value's shape"""
+OBJECT_KINDS = ("addr", "inv", "tx", "header", "block")
+
+
+def kind_of(v):
+    """shape of a reference value: one of OBJECT_KINDS, a pair name, or None"""
+    keys = set(v)
+    if keys == {"services", "ip", "port"}:
+        return "addr"
+    if keys == {"type", "hash"}:
+        return "inv"
+    if "ins" in keys:
+        return "tx"
+    if keys == {"version", "prev", "root", "time", "bits", "nonce"}:
+        return "header"
+    if keys == {"header", "txs"}:
+        return "block"
+    if keys == {"header", "txn_count"}:
+        return "pair:header,txn_count"
+    if keys == {"index", "tx"}:
+        return "pair:index,tx"
+    if keys == {"time", "addr"}:
+        return "pair:time,addr"
+    return None
+
+
+def to_lib(N, v, live=None):
+    """reference value -> the object pycoin's pack takes, directed by the value's shape.
+    `live` (histories): id(reference dict) -> library object already standing for it; such objects are reused, new ones
+    are entered (the caller keeps the reference dicts alive)."""
     if isinstance(v, dict):
-        keys = set(v)
-        if keys == {"services", "ip", "port"}:
-            return mk_addr(v)
-        if keys == {"type", "hash"}:
-            return mk_inv(v)
-        if "ins" in keys:
-            return mk_tx(N, v)
-        if keys == {"version", "prev", "root", "time", "bits", "nonce"}:
-            return mk_header(N, v)
-        if keys == {"header", "txs"}:
-            return mk_block(N, v)
-        if keys == {"header", "txn_count"}:
-            return (mk_header(N, v["header"]), v["txn_count"])
-        if keys == {"index", "tx"}:
-            return (v["index"], mk_tx(N, v["tx"]))
-        if keys == {"time", "addr"}:
-            return (v["time"], mk_addr(v["addr"]))
-        raise ValueError("unknown value shape %s" % sorted(keys))
+        if live is not None and id(v) in live:
+            return live[id(v)]
+        kind = kind_of(v)
+        if kind == "addr":
+            o = mk_addr(v)
+        elif kind == "inv":
+            o = mk_inv(v)
+        elif kind == "tx":
+            o = mk_tx(N, v)
+        elif kind == "header":
+            o = mk_header(N, v)
+        elif kind == "block":
+            o = to_lib(N, v["header"], live)
+            o.set_txs([to_lib(N, t, live) for t in v["txs"]])
+        elif kind and kind.startswith("pair:"):
+            a, b = kind[5:].split(",")
+            return (to_lib(N, v[a], live), to_lib(N, v[b], live))
+        else:
+            raise ValueError("unknown value shape %s" % sorted(v))
+        if live is not None:
+            live[id(v)] = o
+        return o
     if isinstance(v, list):
-        return [to_lib(N, x) for x in v]
+        return [to_lib(N, x, live) for x in v]
     return v
 
 
@@ -477,10 +509,500 @@ def judge(net, name, fields, rec, sample=False):
         rec.sample({"op": "pack/parse", "net": net, "name": name, "bytes": want[:120], "n_bytes": len(want)})
 
 
+# ------------------------------------------------------------------------------------------- histories
+#
+# One history = a sequence of calls on ONE network's pack/parse in which library objects live on between the calls:
+# objects handed to pack (or returned by parse) are read, changed in place through the mutators the library defines or
+# uses itself, put into other messages, packed again; argument lists owned by the caller are edited between packs; calls
+# with invalid values (which may fail half-way) and parses of damaged bytes are interleaved.  Only calls with valid
+# values are judged, each against the reference encoding of the field values the objects have AT THAT MOMENT.
+
+HISTORY_NAMES = (["headers"] * 5 + ["block"] * 3 + ["merkleblock"] * 2 + ["tx"] * 3 + ["blocktxn"] * 2 + ["cmpctblock"] * 2 +
+                 ["addr"] * 3 + ["version"] * 2 + ["inv", "getdata", "notfound", "getblocks", "getheaders", "getblocktxn",
+                                                   "filterload", "filteradd", "reject", "ping", "pong", "feefilter", "sendcmpct",
+                                                   "alert", "verack"])
+NO_LIST_EDIT = {"merkleblock"}          # the proof ties hashes/flags/total together
+
+
+def parse_mismatches(N, name, d, fields):
+    if not isinstance(d, dict):
+        return [("*", "not a dict")]
+    bad = []
+    for k, v in fields.items():
+        if k not in d:
+            bad.append((k, "missing"))
+            continue
+        r = cmp_value(N, d[k], v)
+        if r:
+            bad.append((k, r))
+    return bad
+
+
+class History:
+    def __init__(self, net, rng, rec, ident):
+        self.net, self.N, self.rng, self.rec, self.ident = net, _net(net), rng, rec, ident
+        self.other = _net("LTC" if net == "BTC" else "BTC")
+        self.live = {}                  # id(reference dict) -> library object
+        self.keep = []                  # keeps every reference dict alive (ids stay unique)
+        self.pool = {k: [] for k in OBJECT_KINDS}
+        self.frozen = set()             # ids of tx dicts inside blocks (changing them would break the block's root)
+        self.pending = {}               # id(header dict) -> tx dicts that hash to its root, not yet attached
+        self.dirty = {}                 # id(reference dict) -> name of the last mutator applied
+        self.msgs = []                  # [name, fields (reference), kwargs (library values, caller-owned containers)]
+        self.snaps = []                 # (name, bytes, field values at that time) of successful parses
+        self.trace = []
+        self.after = "start"            # class of the step before the next judged call
+
+    # ---- bookkeeping
+    def register(self, m, obj, kind, frozen=False):
+        self.live[id(m)] = obj
+        self.keep.append(m)
+        if frozen:
+            self.frozen.add(id(m))
+        if len(self.pool[kind]) < 24 and not any(x is m for x in self.pool[kind]):
+            self.pool[kind].append(m)
+
+    def collect(self, v, inside_block=False):
+        """enter the object-shaped reference dicts of a value (already converted with self.live) into the pools"""
+        if isinstance(v, list):
+            for x in v:
+                self.collect(x, inside_block)
+        elif isinstance(v, dict):
+            kind = kind_of(v)
+            if kind in ("addr", "inv", "header"):
+                self.register(v, self.live[id(v)], kind)
+            elif kind == "tx":
+                self.register(v, self.live[id(v)], "tx", frozen=inside_block)
+            elif kind == "block":
+                self.register(v, self.live[id(v)], "block")
+                self.register(v["header"], self.live[id(v)], "header")
+                self.collect(v["txs"], True)
+            elif kind:
+                for x in v.values():
+                    self.collect(x, inside_block)
+
+    def adopt(self, m, g):
+        """parallel walk of a reference value and the value parse returned: the returned objects stand for the dicts"""
+        if isinstance(m, list):
+            for a, b in zip(m, g):
+                self.adopt(a, b)
+        elif isinstance(m, dict):
+            kind = kind_of(m)
+            if kind in ("addr", "inv", "tx", "header"):
+                self.register(m, g, kind)
+            elif kind == "block":
+                self.register(m, g, "block")
+                self.register(m["header"], g, "header")
+                for t, gt in zip(m["txs"], g.txs):
+                    self.register(t, gt, "tx", frozen=True)
+            elif kind:
+                a, b = kind[5:].split(",")
+                self.adopt(m[a], g[0])
+                self.adopt(m[b], g[1])
+
+    def objects_in(self, v, out):
+        if isinstance(v, list):
+            for x in v:
+                self.objects_in(x, out)
+        elif isinstance(v, dict):
+            if kind_of(v) in OBJECT_KINDS:
+                out.append(v)
+            for x in v.values():
+                self.objects_in(x, out)
+        return out
+
+    # ---- building messages
+    def subst(self, v, p):
+        """replace object-shaped values by objects already alive in this history"""
+        rng = self.rng
+        if isinstance(v, list):
+            return [self.subst(x, p) for x in v]
+        if isinstance(v, dict):
+            kind = kind_of(v)
+            if kind in OBJECT_KINDS:
+                if self.pool[kind] and rng.random() < p:
+                    return rng.choice(self.pool[kind])
+                return v
+            if kind:
+                return {k: self.subst(x, p) for k, x in v.items()}
+        return v
+
+    def new_fields(self, name, reuse=0.55):
+        rng = self.rng
+        fields = GENERATORS[name](rng, 20 + rng.randrange(1000))
+        if name == "headers" and rng.random() < 0.5:
+            # a header whose transactions arrive later (Block.set_txs): root consistent with them
+            header, txs = G.rand_block(rng, rng.choice([1, 2, 3, 5]))
+            self.keep.append(header)
+            self.pending[id(header)] = txs
+            fields["headers"].insert(rng.randrange(len(fields["headers"]) + 1), {"header": header, "txn_count": rng.choice([0, len(txs)])})
+        if name != "merkleblock":
+            fields = {k: self.subst(v, reuse) for k, v in fields.items()}
+            if name == "headers" and fields["headers"] and rng.random() < 0.3:
+                fields["headers"].append(rng.choice(fields["headers"]))      # the same object twice in one array
+        self.keep.append(fields)
+        return fields
+
+    def add_message(self, name, fields, kw=None):
+        self.keep.append(fields)
+        if kw is None:
+            kw = {k: to_lib(self.N, v, self.live) for k, v in fields.items()}
+            self.collect(list(fields.values()))
+        self.msgs.append([name, fields, kw])
+        if len(self.msgs) > 6:
+            self.msgs.pop(self.rng.randrange(3))
+        return self.msgs[-1]
+
+    # ---- judged calls
+    def case_dict(self):
+        return {"history": self.ident, "trace": list(self.trace)}
+
+    def mutators_of(self, fields):
+        return sorted({self.dirty[id(o)] for o in self.objects_in(list(fields.values()), []) if id(o) in self.dirty})
+
+    def check(self, msg, what):
+        """pack the message's (caller-owned) arguments, parse the reference bytes; judged against the objects' current values"""
+        name, fields, kw = msg
+        N, rec = self.N, self.rec
+        want = P2P.encode(name, fields)
+        if P2P.decode(name, want) != P2P.normalise(name, fields):
+            raise RuntimeError("reference encoder/decoder disagree on %s (oracle error, history)" % name)
+        self.trace.append("%s:%s" % (what, name))
+        rec.case(("history", self.net, name, want, self.after, what), nontrivial=True)
+        rec.ev("history.pack")
+        rec.ev("history.pack_after:" + self.after)
+        st, got = observe(lambda: N.message.pack(name, **kw))
+        if st != "ok" or got != want:
+            st2, got2 = observe(lambda: N.message.pack(name, **kw))
+            if st2 == "ok" and got2 == want:
+                mech = "p2p.history.pack_wrong_once.after_%s" % self.after            # state left behind by the call before
+            else:
+                st3, got3 = _pack(N, name, fields)
+                if st3 == "ok" and got3 == want:
+                    mech = "p2p.history.pack_stale_object.%s.after_%s" % (name, "+".join(self.mutators_of(fields)) or self.after)
+                else:
+                    mech = "p2p.history.pack_wrong.%s.after_%s" % (name, self.after)
+            rec.violation(mech, self.case_dict(), got, want)
+        rec.ev("history.parse")
+        st, d = observe(N.message.parse, name, want)
+        bad = parse_mismatches(N, name, d, fields) if st == "ok" else None
+        if st != "ok" or bad:
+            st2, d2 = observe(N.message.parse, name, want)
+            again_ok = st2 == "ok" and not parse_mismatches(N, name, d2, fields)
+            mech = "p2p.history.parse_%s.%s.after_%s" % ("wrong_once" if again_ok else ("raises" if st != "ok" else "field_mismatch"),
+                                                         name, self.after)
+            rec.violation(mech, self.case_dict(), d if st != "ok" else bad, fields)
+            d = None
+        self.after = "valid_call"
+        return want, d
+
+    # ---- steps
+    def step_new(self, name=None):
+        name = name or self.rng.choice(HISTORY_NAMES)
+        msg = self.add_message(name, self.new_fields(name))
+        self.rec.ev("history.step:new_message")
+        return self.check(msg, "new")
+
+    def step_repack(self, msg=None, what="repack"):
+        if not self.msgs:
+            return self.step_new()
+        self.rec.ev("history.step:" + what)
+        return self.check(msg or self.rng.choice(self.msgs), what)
+
+    def observers(self, m, kind):
+        o, rng = self.live[id(m)], self.rng
+        import io
+        if kind in ("header", "block"):
+            calls = [o.hash, o.id, o.as_bin, o.as_hex, lambda: str(o), o.as_blockheader, lambda: o.stream_header(io.BytesIO()),
+                     lambda: o.stream(io.BytesIO()), o.previous_block_id, o.check_merkle_hash]
+        elif kind == "tx":
+            calls = [o.hash, o.id, o.w_hash, o.w_id, o.as_bin, o.as_hex, lambda: o.as_bin(include_witness_data=False), o.blanked_hash,
+                     lambda: str(o), o.has_witness_data, o.total_out, o.is_coinbase, lambda: o.hash(hash_type=1),
+                     lambda: o.stream(io.BytesIO())]
+        elif kind == "addr":
+            calls = [o.host, lambda: repr(o), lambda: o == o, lambda: o.stream(io.BytesIO())]
+        else:
+            calls = [lambda: str(o), lambda: hash(o), lambda: o == o, lambda: o.stream(io.BytesIO())]
+        for _ in range(rng.choice([1, 1, 2, 3])):
+            observe(rng.choice(calls))
+            self.rec.ev("history.read_only_call")
+
+    def pick_object(self, kinds, frozen_too=False):
+        cands = [(k, m) for k in kinds for m in self.pool[k] if frozen_too or not (k == "tx" and id(m) in self.frozen)]
+        return self.rng.choice(cands) if cands else (None, None)
+
+    def step_observe(self):
+        kind, m = self.pick_object(OBJECT_KINDS, frozen_too=True)
+        if m is None:
+            return
+        self.observers(m, kind)
+        self.trace.append("read:" + kind)
+        self.rec.ev("history.step:read_only_calls")
+
+    def step_mutate(self):
+        """pack-or-read, then change in place, then pack again"""
+        rng, rec = self.rng, self.rec
+        kind, m = self.pick_object(("header", "header", "tx"))
+        if m is None:
+            return self.step_new(rng.choice(["headers", "tx", "block"]))
+        o = self.live[id(m)]
+        if rng.random() < 0.6:
+            self.observers(m, kind)
+        if kind == "header":
+            if id(m) in self.pending and rng.random() < 0.6:
+                txs = self.pending.pop(id(m))
+                o.set_txs([to_lib(self.N, t, self.live) for t in txs])
+                blk = {"header": m, "txs": txs}
+                self.register(blk, o, "block")
+                for t in txs:
+                    self.keep.append(t)
+                    self.register(t, self.live[id(t)], "tx", frozen=True)
+                how = "set_txs"
+                self.dirty[id(blk)] = how
+            else:
+                m["nonce"] = u32(rng, rng.randrange(20))
+                o.set_nonce(m["nonce"])
+                how = "set_nonce"
+        else:
+            r = rng.randrange(4)
+            if r == 0:
+                i = rng.randrange(len(m["ins"]))
+                w = [G.rbytes(rng, rng.choice([0, 1, 33, 72])) for _ in range(rng.choice([0, 1, 2, 3]))]
+                m["ins"][i]["witness"] = w
+                o.set_witness(i, list(w))
+                how = "set_witness"
+            elif r == 1:
+                i = rng.randrange(len(m["ins"]))
+                m["ins"][i]["script"] = G.rand_script(rng)
+                o.txs_in[i].script = m["ins"][i]["script"]
+                how = "txin_script"
+            elif r == 2:
+                i = rng.randrange(len(m["ins"]))
+                m["ins"][i]["sequence"] = u32(rng, rng.randrange(20))
+                o.txs_in[i].sequence = m["ins"][i]["sequence"]
+                how = "txin_sequence"
+            else:
+                i = rng.randrange(len(m["outs"]))
+                m["outs"][i]["value"] = u64(rng, rng.randrange(20))
+                o.txs_out[i].coin_value = m["outs"][i]["value"]
+                how = "txout_coin_value"
+        self.dirty[id(m)] = how
+        self.after = how
+        self.trace.append(how)
+        rec.ev("history.step:mutate")
+        rec.ev("history.mutate:" + how)
+        # the messages that carry the object are sent again; else it goes into a new one
+        holders = [x for x in self.msgs if any(y is m for y in self.objects_in(list(x[1].values()), []))]
+        if how == "set_txs":
+            if holders:
+                self.check(rng.choice(holders), "after_" + how)       # as a header it is still 80 bytes
+                self.after = how
+            msg = self.add_message("block", {"block": blk})
+            return self.check(msg, "after_" + how)
+        if holders and rng.random() < 0.8:
+            return self.check(rng.choice(holders), "after_" + how)
+        if kind == "header":
+            blocks = [b for b in self.pool["block"] if b["header"] is m]
+            if blocks and rng.random() < 0.5:
+                msg = self.add_message("block", {"block": blocks[0]})
+            else:
+                msg = self.add_message("headers", {"headers": [{"header": m, "txn_count": rng.choice([0, 1, 253])}]})
+        else:
+            msg = self.add_message(*rng.choice([("tx", {"tx": m}), ("blocktxn", {"header_hash": G.rand_hash(rng), "txs": [m, m]})]))
+        return self.check(msg, "after_" + how)
+
+    def step_list_edit(self):
+        rng = self.rng
+        cands = [(x, k) for x in self.msgs if x[0] not in NO_LIST_EDIT for k, v in x[1].items()
+                 if isinstance(v, list) and isinstance(x[2][k], list) and len(v) == len(x[2][k])]
+        if not cands:
+            return self.step_new(rng.choice(["headers", "inv", "addr", "getblocks"]))
+        msg, k = rng.choice(cands)
+        ref, lib = msg[1][k], msg[2][k]
+        if not ref:
+            return self.step_new()
+        op = rng.choice(["pop", "dup", "dup", "reverse", "clear"])
+        if op == "pop":
+            i = rng.randrange(len(ref))
+            ref.pop(i), lib.pop(i)
+        elif op == "dup":
+            i = rng.randrange(len(ref))
+            ref.append(ref[i]), lib.append(lib[i])
+        elif op == "reverse":
+            ref.reverse(), lib.reverse()
+        elif op == "clear":
+            del ref[:], lib[:]
+        self.after = "list_edit"
+        self.trace.append("list_%s" % op)
+        self.rec.ev("history.step:argument_list_edit")
+        return self.check(msg, "after_list_edit")
+
+    def corrupt(self, v):
+        """a value of the same place that the field type cannot carry (biased to late positions of arrays)"""
+        rng, N = self.rng, self.N
+        from pycoin.message.PeerAddress import PeerAddress
+        from pycoin.message.InvItem import InvItem
+        if isinstance(v, bool) or v is None:
+            return rng.choice(["x", object()])
+        if isinstance(v, int):
+            return rng.choice([-1, -5, 1 << 64, 1 << 32, 1 << 48, 256, None, "7", 1.5])
+        if isinstance(v, bytes):
+            return rng.choice([None, 7, v.decode("latin1")])
+        if isinstance(v, (list, tuple)):
+            if not v or rng.random() < 0.1:
+                return rng.choice([None, 5])
+            i = max(rng.randrange(len(v)), rng.randrange(len(v)))
+            w = list(v)
+            w[i] = self.corrupt(v[i])
+            if isinstance(v, tuple):
+                return tuple(w) if rng.random() < 0.8 else rng.choice([tuple(v[:1]), tuple(v) + (0,)])
+            return w
+        if isinstance(v, PeerAddress):
+            r = rng.randrange(4)
+            return [PeerAddress(v.services, v.ip_bin, rng.choice([70000, 65536, -1])), PeerAddress(1 << 64, v.ip_bin, v.port),
+                    PeerAddress(-1, v.ip_bin, v.port), None][r]
+        if isinstance(v, InvItem):
+            return rng.choice([InvItem(1 << 32, v.data, dont_check=True), InvItem(-1, v.data, dont_check=True), None, v.data])
+        if isinstance(v, N.tx):
+            r = rng.randrange(5)
+            if r == 0:
+                return N.tx(v.version, v.txs_in, list(v.txs_out[:-1]) + [N.tx.TxOut(1 << 64, b"\x51")], v.lock_time)
+            if r == 1:
+                return N.tx(v.version, v.txs_in, v.txs_out, rng.choice([-1, 1 << 32]))
+            if r == 2:
+                return N.tx(v.version, list(v.txs_in[:-1]) + [N.tx.TxIn(b"\0" * 32, 0, b"", 1 << 32)], v.txs_out, v.lock_time)
+            if r == 3:
+                return mk_tx(self.other, G.rand_tx(rng, small=True))                  # the other network's class
+            return None
+        if isinstance(v, N.block):
+            r = rng.randrange(4)
+            a = [v.version, v.previous_block_hash, v.merkle_root, v.timestamp, v.difficulty, v.nonce]
+            if r < 3:
+                a[[0, 3, 5][r]] = rng.choice([-1, 1 << 32])
+                b = N.block(*a)
+                b.txs = list(v.txs)
+                return b
+            return None
+        return None
+
+    def step_failed_pack(self):
+        """a pack call with an invalid value (not judged), then a judged call: half of the time the corrected same message"""
+        rng, N = self.rng, self.N
+        if self.msgs and rng.random() < 0.4:
+            name, fields, kw = rng.choice(self.msgs)
+            kw = dict(kw)
+            own = True
+        else:
+            name = rng.choice(HISTORY_NAMES)
+            fields = self.new_fields(name)
+            kw = {k: to_lib(N, v, self.live) for k, v in fields.items()}
+            own = False
+        keys = list(kw)
+        r = rng.random()
+        if not keys or r < 0.05:
+            bad_name, bad_kw = "no_such_message", kw
+        elif r < 0.12:
+            bad_name, bad_kw = name, {k: v for k, v in kw.items() if k != keys[-1]}          # a missing keyword
+        else:
+            k = keys[max(rng.randrange(len(keys)), rng.randrange(len(keys)))]
+            bad_name, bad_kw = name, dict(kw, **{k: self.corrupt(kw[k])})
+        st, got = observe(lambda: N.message.pack(bad_name, **bad_kw))
+        self.rec.ev("history.step:pack_with_invalid_value")
+        self.rec.ev("history.invalid_pack_%s" % ("raised" if st != "ok" else "returned"))
+        self.after = "failed_pack" if st != "ok" else "invalid_pack_returned"
+        self.trace.append("bad_pack:%s" % bad_name)
+        if rng.random() < 0.5:
+            if own:
+                return self.step_repack([m for m in self.msgs if m[1] is fields][0], "corrected")
+            return self.check(self.add_message(name, fields), "corrected")
+        if rng.random() < 0.5:
+            return self.step_repack()
+        return self.step_new()
+
+    def step_failed_parse(self):
+        rng, N = self.rng, self.N
+        name = rng.choice(HISTORY_NAMES)
+        data = P2P.encode(name, GENERATORS[name](rng, 20 + rng.randrange(1000)))
+        r = rng.random()
+        if r < 0.6 and data:
+            data = data[:rng.randrange(len(data))]
+        elif r < 0.8:
+            data = G.rbytes(rng, rng.choice([0, 1, 5, 40, 90]))
+        elif r < 0.9:
+            name = "no_such_message"
+        else:
+            data = data + G.rbytes(rng, 3)
+        st, _ = observe(N.message.parse, name, data)
+        self.rec.ev("history.step:parse_of_damaged_bytes")
+        self.rec.ev("history.damaged_parse_%s" % ("raised" if st != "ok" else "returned"))
+        self.after = "failed_parse" if st != "ok" else "damaged_parse_returned"
+        self.trace.append("bad_parse:%s" % name)
+        return self.step_repack() if rng.random() < 0.6 else self.step_new()
+
+    def step_adopt(self):
+        """send on what parse returned: the returned objects and containers become the arguments of a new message"""
+        if not self.msgs:
+            return self.step_new()
+        name, fields, kw = self.rng.choice(self.msgs)
+        want, d = self.check([name, fields, kw], "before_adopt")
+        if d is None:
+            return
+        model = P2P.decode(name, want)
+        self.keep.append(model)
+        for k in model:
+            self.adopt(model[k], d[k])
+        kw2 = {k: (d[k] if k != "relay" else model[k]) for k in model}
+        self.snaps.append((name, want, P2P.decode(name, want)))
+        msg = self.add_message(name, model, kw2)
+        self.after = "adopt_parsed"
+        self.trace.append("adopt:" + name)
+        self.rec.ev("history.step:adopt_parsed_objects")
+        return self.check(msg, "adopted")
+
+    def step_reparse(self):
+        """bytes parsed earlier are parsed again after the objects returned then were changed / their lists edited"""
+        if not self.snaps:
+            return self.step_adopt()
+        name, data, fields = self.rng.choice(self.snaps)
+        N, rec = self.N, self.rec
+        self.trace.append("reparse:" + name)
+        rec.ev("history.step:parse_same_bytes_again")
+        rec.ev("history.parse")
+        st, d = observe(N.message.parse, name, data)
+        bad = parse_mismatches(N, name, d, fields) if st == "ok" else None
+        if st != "ok" or bad:
+            rec.violation("p2p.history.parse_same_bytes_differs.%s" % name, self.case_dict(), d if st != "ok" else bad, fields)
+
+    def run(self):
+        rng = self.rng
+        self.step_new()
+        steps = [(self.step_mutate, 24), (self.step_failed_pack, 18), (self.step_new, 12), (self.step_list_edit, 10),
+                 (self.step_observe, 8), (self.step_adopt, 9), (self.step_failed_parse, 7), (self.step_repack, 7), (self.step_reparse, 5)]
+        fns = [f for f, w in steps for _ in range(w)]
+        for _ in range(rng.randrange(4, 11)):
+            rng.choice(fns)()
+        self.step_repack(what="final")
+
+
+def run_history(ident, rec):
+    """ident = {"seed", "tier", "shard", "h"}: everything else follows from the rng"""
+    rng = shard_rng(ident["seed"], PROPERTY, ident["tier"], ident["shard"], salt="history:%d" % ident["h"])
+    net = "LTC" if rng.random() < 0.35 else "BTC"
+    rec.ev("history")
+    h = History(net, rng, rec, dict(ident))
+    h.run()
+    return h
+
+
 def run_shard(spec, rec):
     table = table_names()
     check_table(table)
     rec.require("pack", "parse", "relay:true", "relay:false", "relay:absent")
+    if spec.get("histories", 0):
+        rec.require("history", "history.pack", "history.parse", "history.read_only_call", "history.invalid_pack_raised",
+                    "history.damaged_parse_raised", "history.step:parse_same_bytes_again", "history.step:adopt_parsed_objects",
+                    *["history.pack_after:" + a for a in ("failed_pack", "failed_parse", "set_nonce", "set_txs", "set_witness", "txin_script",
+                                                          "txin_sequence", "txout_coin_value", "list_edit", "adopt_parsed", "valid_call")])
     for name in table:
         rec.require("pack:" + name, "parse:" + name)
     part, parts, sets = spec["part"], spec["parts"], spec["sets"]
@@ -495,6 +1017,8 @@ def run_shard(spec, rec):
             net = "LTC" if k % 5 == 4 else "BTC"
             fields = gen(rng, k)
             judge(net, name, fields, rec, sample=(k == part and part < 3 and name in ("version", "cmpctblock", "addr")))
+    for h in range(spec.get("histories", 0)):
+        run_history({"seed": spec["seed"], "tier": spec["tier"], "shard": spec["shard"], "h": h}, rec)
     if part == 0:
         # omitting the optional keyword altogether is not a representation the statement fixes: observed, noted
         N = _net("BTC")
@@ -509,4 +1033,7 @@ def run_shard(spec, rec):
 
 def replay_case(case, rec):
     check_table(table_names())
+    if "history" in case:
+        run_history(case["history"], rec)
+        return
     judge(case["net"], case["name"], case["fields"], rec)
